@@ -381,6 +381,8 @@ func C01(c *Ctx) {
 	gcLivenessGroup(c, r4)
 	const r5 = "K1.compaction-keeps-every-entry"
 	compactionKeepsAllGroup(c, r5)
+	const r7 = "K2.table-cut-at-key-boundary"
+	tableCutGroup(c, r7)
 	const r6 = "K2.delete-and-expiry-semantics"
 	deleteSemanticsGroup(c, r6)
 	const r2 = "K12.sentinel-version"
@@ -457,6 +459,10 @@ func C02(c *Ctx) {
 	c.Rule(r1, "repeated writes of one (key, version) – prewrite delete-then-put, lock column – produce equal internal keys in several sources; the same recency sites as C01 decide which one a versioned read returns")
 	recencySites(c, r1)
 
+	const r4 = "K2.table-cut-at-key-boundary"
+	tableCutGroup(c, r4)
+	const r5 = "K1.compaction-keeps-every-entry"
+	compactionKeepsAllGroup(c, r5)
 	const r2 = "K8.search-accepts-only-same-key"
 	c.Rule(r2, "the three point-lookup implementations (Skiplist.Search, ART.Get/Search, table.Search) position at the first entry >= (key, v) and accept it only if kv.SameKey(sought, found) holds – so the newest version <= v of THAT key is returned, never a neighbour key's entry")
 	for _, t := range [][2]string{{"utils", "Skiplist.Search"}, {"lsm", "table.Search"}} {
